@@ -5,6 +5,8 @@
 //! `seamsim exec --file replay.json [--minimise] [--replay-out P]`
 //! Exit codes: 0 = nothing found, 3 = violation candidate(s) written, 2 = harness error.
 
+#[path = "../../common/logger.rs"]
+mod logger;
 #[path = "../../common/rng.rs"]
 mod rng;
 #[path = "../../common/simsource.rs"]
@@ -97,6 +99,9 @@ struct ReplayFile {
     minimised: bool,
     #[serde(default)]
     notes: Vec<String>,
+    /// a `log` logger that formats every record was installed in the process that found this
+    #[serde(default)]
+    logger: bool,
 }
 
 fn harness_error(msg: &str) -> ! {
@@ -173,6 +178,10 @@ fn cmd_run(args: &[String]) {
     };
     let out = arg(args, "--out").map(str::to_owned);
     let replay_out = arg(args, "--replay-out").unwrap_or("/verif/replays/seam-{i}-{s}.json").to_owned();
+    let with_logger = ctx.child % 2 == 1;
+    if with_logger {
+        logger::install();
+    }
     let t0 = std::time::Instant::now();
     let (sum, viols) = run_prop(&ctx);
     let wall = t0.elapsed().as_secs_f64();
@@ -228,6 +237,7 @@ fn cmd_run(args: &[String]) {
             }),
             minimised: false,
             notes: vec![],
+            logger: with_logger,
         };
         let path = replay_out.replace("{i}", &format!("c{}", ctx.child)).replace("{s}", &n.to_string());
         if let Some(dir) = std::path::Path::new(&path).parent() {
@@ -251,6 +261,9 @@ fn cmd_exec(args: &[String]) {
     let mut rf: ReplayFile = serde_json::from_str(&text).unwrap_or_else(|e| harness_error(&format!("bad replay file: {e}")));
     let replay_out = arg(args, "--replay-out").map(str::to_owned);
     let want_min = args.iter().any(|a| a == "--minimise");
+    if rf.logger {
+        logger::install();
+    }
     let res = exec_prop(&rf.property, &rf.case).unwrap_or_else(|e| harness_error(&e));
     let Some(mut viol) = res else {
         println!("RESULT {}", json!({"violation": false}));
